@@ -426,7 +426,7 @@ func ruleC15Client(c *Ctx) {
 			hasDeadline, hasComplete := false, false
 			for _, st := range sel.States {
 				s := R.V(st.Chan)
-				if strings.HasPrefix(s, fCli+"operation$1(") {
+				if st.Dir == types.RecvOnly && isDeadlineChan(st.Chan, 0) {
 					hasDeadline = true
 				}
 				if s == "var(rpc.Message).Complete" {
@@ -459,21 +459,6 @@ func ruleC15Client(c *Ctx) {
 				c.OK(rule, FnName(fn)+" | completion channel is buffered", c.P.InstrPos(mk[0]), "make(chan struct{}, 1): the loop goroutine never blocks completing an abandoned request", false)
 			} else {
 				c.Bad(rule, FnName(fn)+" | completion channel is buffered", c.P.InstrPos(mk[0]), "unbuffered completion channel: completing a request whose caller timed out blocks the loop goroutine forever", nil)
-			}
-		}
-		// deadline closure: every return is time.After(...)
-		for _, cl := range Closures(fn) {
-			CR := NewRenderer(cl)
-			okd := len(Returns(cl)) > 0
-			for _, r := range Returns(cl) {
-				if !strings.HasPrefix(CR.V(r.Results[0]), "time.After(") {
-					okd = false
-				}
-			}
-			if okd {
-				c.OK(rule, FnName(cl)+" | every operation type gets a deadline", c.P.Pos(cl.Pos()), "all returns are time.After(...)", false)
-			} else {
-				c.Bad(rule, FnName(cl)+" | every operation type gets a deadline", c.P.Pos(cl.Pos()), "some operation type has no deadline channel", nil)
 			}
 		}
 	}
@@ -622,4 +607,49 @@ func ruleC17Attach(c *Ctx) {
 		c.Guard(rule, fn, StoresTo(fn, "Server", "r"), "publish instance", nil, okcall("replica.New"))
 	}
 	c.Floor(rule, 6)
+}
+
+// isDeadlineChan: the value is the result of time.After, directly or as the result of a
+// same-module function (literal or named) every return of which is such a value.
+func isDeadlineChan(v ssa.Value, depth int) bool {
+	if depth > 3 {
+		return false
+	}
+	cl, ok := strip(v).(*ssa.Call)
+	if !ok {
+		if p, ok := strip(v).(*ssa.Phi); ok {
+			for _, e := range allPhiEdges(p) {
+				if !isDeadlineChan(e.val, depth+1) {
+					return false
+				}
+			}
+			return true
+		}
+		return false
+	}
+	var h *ssa.Function
+	if mc, ok := cl.Call.Value.(*ssa.MakeClosure); ok {
+		h = mc.Fn.(*ssa.Function)
+	} else {
+		h = cl.Call.StaticCallee()
+	}
+	if h == nil {
+		return false
+	}
+	if FnName(h) == "time.After" {
+		return true
+	}
+	if h.Blocks == nil || !isJivaFn(h) {
+		return false
+	}
+	rets := Returns(h)
+	if len(rets) == 0 {
+		return false
+	}
+	for _, r := range rets {
+		if len(r.Results) != 1 || !isDeadlineChan(r.Results[0], depth+1) {
+			return false
+		}
+	}
+	return true
 }
